@@ -68,7 +68,7 @@ func runC04(c *Ctx) {
 	var known []wamp.ID
 	var victims []*Sess
 	for i := 0; i < nv; i++ {
-		v := w.NewSess(fmt.Sprintf("v%d", i), "r1", g.Bool(), qs[g.Intn(len(qs))], nil)
+		v := NewAnySess(c, w, g, fmt.Sprintf("v%d", i), "r1", qs[g.Intn(len(qs))], nil)
 		beh := g.Intn(4)
 		v.OnRecv = CalleeBehaviour(func(inv *wamp.Invocation) int { return beh })
 		if !v.Join() {
